@@ -330,9 +330,9 @@ example :
 
 /-- **wire_cases.** The complete table of what one request causes, for every request: nothing for a
 spoofed port, nothing for a rejected request, and otherwise — "processed normally" — nothing for an
-unknown dedicated address, the server's SERVFAIL for a device-finder error, FORMERR (and the server's
-SERVFAIL for the returned error) for a malformed ECS option, and exactly one call of the next stage in
-every other case. -/
+unknown dedicated address, the server's SERVFAIL for a device-finder error, exactly one FORMERR for a
+malformed ECS option (since the C05 repair the answered error is no longer returned, so no SERVFAIL
+follows it), and exactly one call of the next stage in every other case. -/
 theorem wire_cases (g : Global) (r : Req) :
     wire g r =
       if r.port = 0 then []
@@ -340,7 +340,7 @@ theorem wire_cases (g : Global) (r : Req) :
       else match r.dev with
         | .unknownDedicated => []
         | .error => [.servfail]
-        | _ => if r.ecsBad then [.formerr, .servfail] else [.next] := by
+        | _ => if r.ecsBad then [.formerr] else [.next] := by
   by_cases hp : r.port = 0
   · simp [wire, wrap, hp]
   · by_cases hb : blocked g r = true
